@@ -503,6 +503,15 @@ def r01_8(rep, M, rid):
         concat += [norm(x) for e in sel_sl["exprs"] for x in ast.walk(e) if isinstance(x, ast.BinOp) and isinstance(x.op, ast.Add)]
         largest = any(isinstance(c, ast.Call) and isinstance(c.func, ast.Name) and c.func.id == "max" for c in pick)
         old = any(isinstance(x, ast.Attribute) and x.attr == "indices" and norm(x.value) == norm(t.value) for x in ast.walk(v.value))
+        # the component holds *row numbers* of the cluster's own matrix, which is built in the stored order of `indices`:
+        # the selection base must therefore be the indices in exactly that order
+        base = v.value
+        recvn = norm(t.value)
+        same_order = norm(base).replace("numpy.", "np.") in (f"np.array({recvn}.indices)", f"np.asarray({recvn}.indices)", f"{recvn}.indices", f"list({recvn}.indices)")
+        if old and not same_order:
+            rep.violation(rid, construct + " order", f"the component (row numbers of the matrix built from `{recvn}.indices` as stored) selects from `{norm(base)}`, "
+                          "which is in another order: rows are mapped to the wrong atoms, so a dangling atom is kept and a bonded one dropped", M.where(fq, s))
+            continue
         if from_call and pick and not concat and old:
             rep.ok(rid, construct + " [exactly one bonded component of the old indices]")
             if not largest:
@@ -511,6 +520,38 @@ def r01_8(rep, M, rid):
             rep.violation(rid, construct, f"the kept atoms are not exactly one bonded component of the cluster (from clustering: {from_call}, "
                           f"single pick: {bool(pick)}, concatenation: {concat[:1]}, of old indices: {old}): the result can be disconnected",
                           M.where(fq, s))
+
+
+def r01_8_components(rep, M, rid):
+    """matid.geometry.get_clusters: every returned grouping comes from the DBSCAN labels (no shortcut that could report an empty
+    or unclustered group; an empty matrix makes DBSCAN raise, which is how emptied clusters are dropped)"""
+    fq = GEO + ".get_clusters"
+    fn = M.func(fq)
+    fl = Flow(fn)
+    fits = [n for n, d in fl.cfg.g.nodes(data=True) if d["ast"] is not None and any(
+        isinstance(c, ast.Call) and isinstance(c.func, ast.Attribute) and c.func.attr in ("fit", "fit_predict") for c in walk_own(d["ast"]))]
+    if not fits:
+        raise AnalysisError("geometry.get_clusters: DBSCAN fit not found")
+    bad = [r for r in fl.cfg.returns if not fl.cfg.all_paths_pass(fl.cfg.entry, r, fits)]
+    if bad:
+        rs = fl.cfg.stmt(bad[0])
+        rep.violation(rid, f"geometry.get_clusters: `{norm(rs)[:60]}`", "a path returns groups without running the clustering: for an empty distance matrix "
+                      "(a cluster emptied by overlap resolution) a group is reported instead of the failure that makes the caller drop the cluster, so "
+                      "clusters with an empty index list are returned", M.where(fq, rs))
+    else:
+        rep.ok(rid, "geometry.get_clusters: every return passes through the DBSCAN fit")
+    # partition of the labels: each element appended exactly once
+    loops = [n for n in ast.walk(fn) if isinstance(n, ast.For) and "enumerate" in norm(n.iter)]
+    ok = False
+    for lp in loops:
+        ifs = [t for t in lp.body if isinstance(t, ast.If)]
+        if len(ifs) == 1 and ifs[0].orelse and all(any(isinstance(c, ast.Call) and isinstance(c.func, ast.Attribute) and c.func.attr == "append" for c in ast.walk(b))
+                                                   for b in (ifs[0].body[0], ifs[0].orelse[0])):
+            ok = True
+    if ok:
+        rep.ok(rid, "geometry.get_clusters: every element goes to exactly one group (noise points as singletons)")
+    else:
+        rep.violation(rid, "geometry.get_clusters: grouping", "the labels are not turned into a partition of the elements", M.where(fq))
 
 
 # ----------------------------------------------------------------------------- R01.9
@@ -873,6 +914,7 @@ def run(rep, ctx):
         r01_7(rep, M, "R01.7")
     with rep.guard("R01.8"):
         r01_8(rep, M, "R01.8")
+        r01_8_components(rep, M, "R01.8")
     with rep.guard("R01.9"):
         r01_9(rep, M, "R01.9")
     with rep.guard("R01.10"):
